@@ -23,6 +23,13 @@ def _target_dir(repo):
     return os.path.join(BUILD_ROOT, "target-" + h)
 
 
+def cov_env(env):
+    """development aid (tools/coverage.sh): let a coverage build write its counters continuously"""
+    if os.environ.get("VERIF_COVERAGE"):
+        env["LLVM_PROFILE_FILE"] = os.path.join(os.environ["VERIF_COVERAGE"], "%p-%m.profraw%c")
+    return env
+
+
 class BuildError(Exception):
     pass
 
@@ -44,9 +51,15 @@ def build(features=("verif",), release=False, repo=None, quiet=True):
     env["CARGO_NET_OFFLINE"] = "true"
     env["CARGO_TARGET_DIR"] = _target_dir(repo)
     env.pop("RUSTFLAGS", None)
+    cov = os.environ.get("VERIF_COVERAGE")
+    if cov:
+        # development aid (tools/coverage.sh): source-coverage build, profiles written continuously into <cov>
+        env["CARGO_TARGET_DIR"] = os.path.join(BUILD_ROOT, "target-cov")
+        env["RUSTFLAGS"] = "-Cinstrument-coverage -Cllvm-args=-runtime-counter-relocation"
+        env["LLVM_PROFILE_FILE"] = os.path.join(cov, "build-%p-%m.profraw")  # instrumented build scripts
 
     def run(feats):
-        cmd = ["cargo", "build", "--offline"]
+        cmd = ["cargo"] + (["+nightly"] if cov else []) + ["build", "--offline"]
         if not release:
             # optimise only the password-hash dependencies (0.17 s -> ms per verification); the
             # server's own crate keeps the plain debug profile with all its runtime checks
@@ -111,7 +124,7 @@ def password_hash(binary, pw):
     k = (binary, pw)
     if k not in _hash_cache:
         p = subprocess.run([binary, "-g", "-P", pw], stdout=subprocess.PIPE, stderr=subprocess.PIPE,
-                           text=True, timeout=60)
+                           text=True, timeout=60, env=cov_env(dict(os.environ)))
         m = re.search(r"Password Hash: (\S+)", p.stdout)
         if not m:
             raise RuntimeError("no hash from -g: %r %r" % (p.stdout, p.stderr))
@@ -337,6 +350,7 @@ class Server:
                 env["SIRC_VERIF_JITTER"] = "%d,%d" % tuple(self.jitter)
         if self.worker_threads:
             env["TOKIO_WORKER_THREADS"] = str(self.worker_threads)
+        cov_env(env)
         env.update(self.extra_env)
         cmd = list(self.wrapper or []) + [self.binary, "-c", cfgp] + self.extra_args
         self.stderr_lines = []
